@@ -71,7 +71,7 @@ var c03SelfTests = []SelfTest{
 	{Name: "salt binds the initiator key twice", ExpectRule: "C03.R7", ExpectKey: "responderPub", Edits: []Edit{
 		{File: "internal/crypto/crypto.go", Old: "copy(salt[8+KeySize:], responderPub[:])", New: "copy(salt[8+KeySize:], initiatorPub[:])"},
 	}},
-	{Name: "salt fields overlap", ExpectRule: "C03.R7", ExpectKey: "disjoint", Edits: []Edit{
+	{Name: "salt fields overlap", ExpectRule: "C03.R7", ExpectKey: "every input byte", Edits: []Edit{
 		{File: "internal/crypto/crypto.go", Old: "copy(salt[8+KeySize:], responderPub[:])", New: "copy(salt[8:], responderPub[:])"},
 	}},
 	{Name: "request id truncated to 32 bits at the udp exit", ExpectRule: "C03.R4", ExpectKey: "performKeyExchange", Edits: []Edit{
@@ -116,6 +116,30 @@ var c03SelfTests = []SelfTest{
 	{Name: "rewrite: relayed UDP_OPEN built by a helper", Edits: []Edit{
 		{File: "internal/agent/udp.go", Old: "\tfwdOpen := &protocol.UDPOpen{\n\t\tRequestID:       open.RequestID,\n\t\tAddressType:     open.AddressType,\n\t\tAddress:         open.Address,\n\t\tPort:            open.Port,\n\t\tTTL:             open.TTL,\n\t\tRemainingPath:   newPath,\n\t\tEphemeralPubKey: open.EphemeralPubKey,\n\t}\n", New: "\tfwdOpen := forwardedUDPOpen(open, newPath)\n"},
 		{File: "internal/agent/udp.go", Old: "// handleUDPOpenAck processes a UDP_OPEN_ACK frame.\n", New: "func forwardedUDPOpen(in *protocol.UDPOpen, rest []identity.AgentID) *protocol.UDPOpen {\n\treturn &protocol.UDPOpen{\n\t\tRequestID:       in.RequestID,\n\t\tAddressType:     in.AddressType,\n\t\tAddress:         in.Address,\n\t\tPort:            in.Port,\n\t\tTTL:             in.TTL,\n\t\tRemainingPath:   rest,\n\t\tEphemeralPubKey: in.EphemeralPubKey,\n\t}\n}\n\n// handleUDPOpenAck processes a UDP_OPEN_ACK frame.\n"},
+	}},
+	{Name: "running offset uses the copy count instead of the end position (seed C03-d class)", ExpectRule: "C03.R7", ExpectKey: "every input byte", Edits: []Edit{
+		{File: "internal/crypto/crypto.go", Old: "\tcopy(salt[8:8+KeySize], initiatorPub[:])\n\tcopy(salt[8+KeySize:], responderPub[:])\n", New: "\tn := copy(salt[8:], initiatorPub[:])\n\tcopy(salt[n:], responderPub[:])\n"},
+	}},
+	{Name: "salt buffer one field too short, responder key truncated", ExpectRule: "C03.R7", ExpectKey: "every input byte", Edits: []Edit{
+		{File: "internal/crypto/crypto.go", Old: "\tsalt := make([]byte, 8+KeySize+KeySize)\n", New: "\tsalt := make([]byte, 8+KeySize+KeySize/2)\n"},
+	}},
+	{Name: "only a prefix of the salt buffer is handed to HKDF", ExpectRule: "C03.R7", ExpectKey: "every input byte", Edits: []Edit{
+		{File: "internal/crypto/crypto.go", Old: "hkdf.New(sha256.New, sharedSecret[:], salt, []byte(hkdfInfo))", New: "hkdf.New(sha256.New, sharedSecret[:], salt[:8+KeySize], []byte(hkdfInfo))"},
+	}},
+	{Name: "appended salt takes only part of the initiator key", ExpectRule: "C03.R7", ExpectKey: "every input byte", Edits: []Edit{
+		{File: "internal/crypto/crypto.go", Old: "\tsalt := make([]byte, 8+KeySize+KeySize)\n\tbinary.BigEndian.PutUint64(salt[0:8], streamID)\n\tcopy(salt[8:8+KeySize], initiatorPub[:])\n\tcopy(salt[8+KeySize:], responderPub[:])\n", New: "\tsalt := make([]byte, 0, 8+KeySize+KeySize)\n\tsalt = binary.BigEndian.AppendUint64(salt, streamID)\n\tsalt = append(salt, initiatorPub[:KeySize-8]...)\n\tsalt = append(salt, responderPub[:]...)\n"},
+	}},
+	{Name: "identifier written after the keys over the first key bytes", ExpectRule: "C03.R7", ExpectKey: "every input byte", Edits: []Edit{
+		{File: "internal/crypto/crypto.go", Old: "\tbinary.BigEndian.PutUint64(salt[0:8], streamID)\n\tcopy(salt[8:8+KeySize], initiatorPub[:])\n\tcopy(salt[8+KeySize:], responderPub[:])\n", New: "\tcopy(salt[0:KeySize], initiatorPub[:])\n\tcopy(salt[KeySize:], responderPub[:])\n\tbinary.BigEndian.PutUint64(salt[0:8], streamID)\n"},
+	}},
+	{Name: "only half of the shared secret is used as keying material", ExpectRule: "C03.R7", ExpectKey: "secret handed over in full", Edits: []Edit{
+		{File: "internal/crypto/crypto.go", Old: "hkdf.New(sha256.New, sharedSecret[:], salt, []byte(hkdfInfo))", New: "hkdf.New(sha256.New, sharedSecret[:KeySize/2], salt, []byte(hkdfInfo))"},
+	}},
+	{Name: "rewrite: running offset advanced correctly with the copy counts", Edits: []Edit{
+		{File: "internal/crypto/crypto.go", Old: "\tcopy(salt[8:8+KeySize], initiatorPub[:])\n\tcopy(salt[8+KeySize:], responderPub[:])\n", New: "\toff := 8\n\toff += copy(salt[off:], initiatorPub[:])\n\tcopy(salt[off:], responderPub[:])\n"},
+	}},
+	{Name: "rewrite: salt in a stack array with len-based offsets", Edits: []Edit{
+		{File: "internal/crypto/crypto.go", Old: "\tsalt := make([]byte, 8+KeySize+KeySize)\n\tbinary.BigEndian.PutUint64(salt[0:8], streamID)\n\tcopy(salt[8:8+KeySize], initiatorPub[:])\n\tcopy(salt[8+KeySize:], responderPub[:])\n\n\t// Use HKDF-SHA256 to derive the session key\n\treader := hkdf.New(sha256.New, sharedSecret[:], salt, []byte(hkdfInfo))", New: "\tvar saltBuf [8 + 2*KeySize]byte\n\tbinary.BigEndian.PutUint64(saltBuf[:8], streamID)\n\tcopy(saltBuf[8:], initiatorPub[:])\n\tcopy(saltBuf[8+len(initiatorPub):], responderPub[:])\n\n\treader := hkdf.New(sha256.New, sharedSecret[:], saltBuf[:], []byte(hkdfInfo))"},
 	}},
 	{Name: "rewrite: derivation hoisted into a local helper closure (exit)", Edits: []Edit{
 		{File: "internal/exit/handler.go", Old: "sessionKey := crypto.DeriveSessionKey(sharedSecret, requestID, remoteEphemeralPub, ephPub, false)", New: "sessionKey := func(id uint64, remote, local [crypto.KeySize]byte) *crypto.SessionKey {\n\t\treturn crypto.DeriveSessionKey(sharedSecret, id, remote, local, false)\n\t}(requestID, remoteEphemeralPub, ephPub)"},
@@ -1864,6 +1888,473 @@ func (cx *c03Ctx) toDeriveParam(v ssa.Value, scope map[*ssa.Function]bool, depth
 	return nil, narrowed
 }
 
+// ---------- exact salt accounting ----------
+
+// c03EvalInt evaluates an integer SSA expression built from constants, + - *, len(), min/max and
+// the result of copy() (= min(len(dst), len(src))).
+func c03EvalInt(v ssa.Value, depth int) (int64, bool) {
+	if v == nil || depth > 12 {
+		return 0, false
+	}
+	if k, ok := kit.ConstInt(v); ok {
+		return k, true
+	}
+	switch x := v.(type) {
+	case *ssa.Convert:
+		return c03EvalInt(x.X, depth+1)
+	case *ssa.ChangeType:
+		return c03EvalInt(x.X, depth+1)
+	case *ssa.BinOp:
+		a, ok1 := c03EvalInt(x.X, depth+1)
+		b, ok2 := c03EvalInt(x.Y, depth+1)
+		if !ok1 || !ok2 {
+			return 0, false
+		}
+		switch x.Op {
+		case token.ADD:
+			return a + b, true
+		case token.SUB:
+			return a - b, true
+		case token.MUL:
+			return a * b, true
+		}
+		return 0, false
+	case *ssa.Phi:
+		var val int64
+		for i, e := range x.Edges {
+			k, ok := c03EvalInt(e, depth+1)
+			if !ok || (i > 0 && k != val) {
+				return 0, false
+			}
+			val = k
+		}
+		return val, len(x.Edges) > 0
+	case *ssa.Call:
+		cal := kit.CalleeOf(x)
+		args := x.Call.Args
+		switch cal.Built {
+		case "len", "cap":
+			if len(args) == 1 {
+				if _, lo, hi, ok := c03BufRange(args[0], depth+1); ok {
+					return hi - lo, true
+				}
+			}
+		case "copy":
+			if len(args) == 2 {
+				_, dlo, dhi, ok1 := c03BufRange(args[0], depth+1)
+				_, slo, shi, ok2 := c03BufRange(args[1], depth+1)
+				if ok1 && ok2 {
+					n := dhi - dlo
+					if shi-slo < n {
+						n = shi - slo
+					}
+					return n, true
+				}
+			}
+		case "min", "max":
+			var val int64
+			for i, a := range args {
+				k, ok := c03EvalInt(a, depth+1)
+				if !ok {
+					return 0, false
+				}
+				if i == 0 || (cal.Built == "min" && k < val) || (cal.Built == "max" && k > val) {
+					val = k
+				}
+			}
+			return val, len(args) > 0
+		}
+	}
+	return 0, false
+}
+
+// c03BufRange resolves a slice / array-pointer value to (root buffer, lo, hi) with evaluated bounds.
+// Roots: an array variable (Alloc), an array-pointer parameter, a make([]byte, n), a constant string.
+func c03BufRange(v ssa.Value, depth int) (root ssa.Value, lo, hi int64, ok bool) {
+	if v == nil || depth > 12 {
+		return nil, 0, 0, false
+	}
+	arrLen := func(t types.Type) (int64, bool) {
+		if pt, isP := t.Underlying().(*types.Pointer); isP {
+			if arr, isA := pt.Elem().Underlying().(*types.Array); isA {
+				return arr.Len(), true
+			}
+		}
+		return 0, false
+	}
+	switch x := v.(type) {
+	case *ssa.Slice:
+		var blo, bhi int64
+		if n, isArr := arrLen(x.X.Type()); isArr {
+			root, blo, bhi = x.X, 0, n
+		} else {
+			var okb bool
+			root, blo, bhi, okb = c03BufRange(x.X, depth+1)
+			if !okb {
+				return nil, 0, 0, false
+			}
+		}
+		lo, hi = blo, bhi
+		if x.Low != nil {
+			k, okk := c03EvalInt(x.Low, depth+1)
+			if !okk {
+				return nil, 0, 0, false
+			}
+			lo = blo + k
+		}
+		if x.High != nil {
+			k, okk := c03EvalInt(x.High, depth+1)
+			if !okk {
+				return nil, 0, 0, false
+			}
+			hi = blo + k
+		}
+		if lo < blo || hi < lo {
+			return nil, 0, 0, false
+		}
+		return root, lo, hi, true
+	case *ssa.MakeSlice:
+		n, okn := c03EvalInt(x.Len, depth+1)
+		if !okn {
+			return nil, 0, 0, false
+		}
+		return x, 0, n, true
+	case *ssa.Convert:
+		if s, isS := kit.ConstString(x.X); isS {
+			return x, 0, int64(len(s)), true
+		}
+	case *ssa.Const:
+		if s, isS := kit.ConstString(x); isS {
+			return x, 0, int64(len(s)), true
+		}
+		if x.Value == nil {
+			return x, 0, 0, true // nil slice
+		}
+	}
+	return nil, 0, 0, false
+}
+
+// c03Piece is a run of salt bytes taken from one DeriveSessionKey parameter (prm == nil: other content).
+type c03Piece struct {
+	prm    *ssa.Parameter
+	lo, hi int64 // source byte range inside the parameter
+}
+
+// derivePrmOfBuffer maps a source buffer root (spill slot of a parameter, or a helper's array /
+// array-pointer parameter bound at its call sites) to the DeriveSessionKey parameter it holds.
+func (cx *c03Ctx) derivePrmOfBuffer(root ssa.Value, scope map[*ssa.Function]bool, depth int) *ssa.Parameter {
+	if root == nil || depth > 4 {
+		return nil
+	}
+	switch x := root.(type) {
+	case *ssa.Alloc:
+		if prm := kit.AllocOfParam(x); prm != nil {
+			return cx.derivePrmOfBuffer(prm, scope, depth)
+		}
+	case *ssa.UnOp:
+		if x.Op == token.MUL {
+			return cx.derivePrmOfBuffer(x.X, scope, depth)
+		}
+	case *ssa.Parameter:
+		if x.Parent() == cx.derive {
+			return x
+		}
+		if !scope[x.Parent()] {
+			return nil
+		}
+		var res *ssa.Parameter
+		for _, site := range cx.p.StaticCallers(x.Parent()) {
+			q := cx.derivePrmOfBuffer(kit.ArgAt(site, kit.ParamIndex(x)), scope, depth+1)
+			if q == nil || (res != nil && q != res) {
+				return nil
+			}
+			res = q
+		}
+		return res
+	}
+	return nil
+}
+
+// saltValue resolves the salt argument through helper parameters (single binding) and helper
+// results (single return) to the value that is built locally.
+func (cx *c03Ctx) saltValue(v ssa.Value, scope map[*ssa.Function]bool, depth int) ssa.Value {
+	for i := 0; i < 8 && v != nil; i++ {
+		switch x := v.(type) {
+		case *ssa.Parameter:
+			if x.Parent() == cx.derive || !scope[x.Parent()] {
+				return v
+			}
+			sites := cx.p.StaticCallers(x.Parent())
+			if len(sites) != 1 {
+				return v
+			}
+			v = kit.ArgAt(sites[0], kit.ParamIndex(x))
+			continue
+		case *ssa.Call:
+			g := kit.CalleeOf(x).Static
+			if g == nil || !scope[g] {
+				return v
+			}
+			var rets []*ssa.Return
+			for _, ret := range kit.Returns(g) {
+				if g.Recover == nil || ret.Block() != g.Recover {
+					rets = append(rets, ret)
+				}
+			}
+			if len(rets) != 1 {
+				return v
+			}
+			v = kit.ReturnResult(rets[0], 0)
+			continue
+		}
+		return v
+	}
+	return v
+}
+
+// saltPieces evaluates an append-built salt into its sequence of pieces.
+func (cx *c03Ctx) saltPieces(v ssa.Value, scope map[*ssa.Function]bool, depth int) ([]c03Piece, bool) {
+	if depth > 16 {
+		return nil, false
+	}
+	v = cx.saltValue(v, scope, 0)
+	if _, lo, hi, ok := c03BufRange(v, 0); ok && lo == hi {
+		return nil, true // empty start: make([]byte, 0, n), nil, buf[:0]
+	}
+	c, isCall := v.(*ssa.Call)
+	if !isCall {
+		return nil, false
+	}
+	cal := kit.CalleeOf(c)
+	switch {
+	case cal.Built == "append" && len(c.Call.Args) == 2:
+		base, ok := cx.saltPieces(c.Call.Args[0], scope, depth+1)
+		if !ok {
+			return nil, false
+		}
+		root, lo, hi, ok := c03BufRange(c.Call.Args[1], 0)
+		if !ok {
+			return nil, false
+		}
+		return append(base, c03Piece{cx.derivePrmOfBuffer(root, scope, 0), lo, hi}), true
+	case cal.Pkg == "encoding/binary" && strings.HasPrefix(cal.Name, "AppendUint"):
+		base, ok := cx.saltPieces(kit.Arg(c, 0), scope, depth+1)
+		if !ok {
+			return nil, false
+		}
+		w := map[string]int64{"AppendUint64": 8, "AppendUint32": 4, "AppendUint16": 2}[cal.Name]
+		prm, narrowed := cx.toDeriveParam(kit.Arg(c, 1), scope, 0)
+		if prm == nil || narrowed || w*8 < int64(c03IntBits(prm.Type())) {
+			return append(base, c03Piece{nil, 0, w}), true
+		}
+		return append(base, c03Piece{prm, 0, w}), true
+	}
+	return nil, false
+}
+
+// saltCoverage decides, when the construction of the salt can be evaluated exactly, which bytes
+// of the request identifier and of the two public keys are missing from the salt handed to
+// hkdf.New. Two constructions are understood: a fixed buffer filled by PutUintN / copy at
+// evaluable offsets (constants, + - *, len, the result of copy) in straight-line order, and a
+// slice grown with append / AppendUintN. decided=false: neither applies.
+func (cx *c03Ctx) saltCoverage(hk *ssa.Call, scope map[*ssa.Function]bool) (lost []string, model string, decided bool) {
+	fn := cx.derive
+	want := map[*ssa.Parameter]int64{fn.Params[1]: 8, fn.Params[2]: 32, fn.Params[3]: 32}
+	names := map[*ssa.Parameter]string{fn.Params[1]: "the request identifier", fn.Params[2]: "initiatorPub", fn.Params[3]: "responderPub"}
+	have := map[*ssa.Parameter]map[int64]bool{}
+	mark := func(prm *ssa.Parameter, i int64) {
+		if prm == nil {
+			return
+		}
+		if have[prm] == nil {
+			have[prm] = map[int64]bool{}
+		}
+		have[prm][i] = true
+	}
+	report := func() []string {
+		var out []string
+		for _, prm := range []*ssa.Parameter{fn.Params[1], fn.Params[2], fn.Params[3]} {
+			first, n := int64(-1), int64(0)
+			for i := int64(0); i < want[prm]; i++ {
+				if !have[prm][i] {
+					if first < 0 {
+						first = i
+					}
+					n++
+				}
+			}
+			if n > 0 {
+				out = append(out, fmt.Sprintf("%d byte(s) of %s (from byte %d)", n, names[prm], first))
+			}
+		}
+		return out
+	}
+	sv := cx.saltValue(hk.Call.Args[2], scope, 0)
+	// (1) append-built salt
+	if pieces, ok := cx.saltPieces(sv, scope, 0); ok && len(pieces) > 0 {
+		for _, pc := range pieces {
+			for i := pc.lo; i < pc.hi; i++ {
+				mark(pc.prm, i)
+			}
+		}
+		return report(), "built with append", true
+	}
+	// (2) fixed buffer
+	root, argLo, argHi, ok := c03BufRange(sv, 0)
+	if !ok {
+		return nil, "", false
+	}
+	rootIn, isIn := root.(ssa.Instruction)
+	if !isIn {
+		return nil, "", false
+	}
+	bf := rootIn.Parent()
+	type write struct {
+		in     ssa.Instruction
+		lo, hi int64
+		prm    *ssa.Parameter
+		slo    int64
+	}
+	var writes []write
+	evaluable := true
+	derived := map[ssa.Value]bool{root: true}
+	changed := true
+	for changed {
+		changed = false
+		kit.Instrs(bf, func(in ssa.Instruction) {
+			v, isV := in.(ssa.Value)
+			if !isV || derived[v] {
+				return
+			}
+			switch x := in.(type) {
+			case *ssa.Slice:
+				if derived[x.X] {
+					derived[v], changed = true, true
+				}
+			case *ssa.IndexAddr:
+				if derived[x.X] {
+					derived[v], changed = true, true
+				}
+			}
+		})
+	}
+	kit.Instrs(bf, func(in ssa.Instruction) {
+		switch x := in.(type) {
+		case *ssa.Store:
+			if !derived[x.Addr] {
+				return
+			}
+			if ia, isIA := x.Addr.(*ssa.IndexAddr); isIA {
+				if k, okk := c03EvalInt(ia.Index, 0); okk {
+					if _, blo, _, okb := c03BufRange(ia.X, 0); okb || ia.X == root {
+						writes = append(writes, write{in: in, lo: blo + k, hi: blo + k + 1})
+						return
+					}
+				}
+			}
+			evaluable = false
+		case ssa.CallInstruction:
+			if in == ssa.Instruction(hk) {
+				return
+			}
+			cal := kit.CalleeOf(x)
+			args := x.Common().Args
+			uses := false
+			for _, a := range args {
+				if derived[a] {
+					uses = true
+				}
+			}
+			if !uses {
+				return
+			}
+			switch {
+			case cal.Built == "copy" && len(args) == 2:
+				if !derived[args[0]] {
+					return // read
+				}
+				_, dlo, dhi, ok1 := c03BufRange(args[0], 0)
+				sroot, slo, shi, ok2 := c03BufRange(args[1], 0)
+				if !ok1 || !ok2 {
+					evaluable = false
+					return
+				}
+				n := dhi - dlo
+				if shi-slo < n {
+					n = shi - slo
+				}
+				writes = append(writes, write{in: in, lo: dlo, hi: dlo + n, prm: cx.derivePrmOfBuffer(sroot, scope, 0), slo: slo})
+			case cal.Built == "len" || cal.Built == "cap":
+			case cal.Built != "":
+				evaluable = false
+			case cal.Pkg == "encoding/binary" && strings.HasPrefix(cal.Name, "PutUint"):
+				w := map[string]int64{"PutUint64": 8, "PutUint32": 4, "PutUint16": 2}[cal.Name]
+				_, dlo, dhi, ok1 := c03BufRange(kit.Arg(x, 0), 0)
+				if !ok1 || w == 0 || dhi-dlo < w {
+					evaluable = false
+					return
+				}
+				prm, narrowed := cx.toDeriveParam(kit.Arg(x, 1), scope, 0)
+				if narrowed || (prm != nil && w*8 < int64(c03IntBits(prm.Type()))) {
+					prm = nil
+				}
+				writes = append(writes, write{in: in, lo: dlo, hi: dlo + w, prm: prm})
+			default:
+				// another callee receives (part of) the buffer
+				if g := cal.Static; g != nil && scope[g] {
+					for i, a := range args {
+						if derived[a] && kit.WritesThroughParam(g, i) {
+							evaluable = false
+						}
+					}
+					return
+				}
+				if cal.Pkg == "golang.org/x/crypto/hkdf" || c04ReaderName(cal.Name) {
+					return
+				}
+				evaluable = false
+			}
+		}
+	})
+	if !evaluable || len(writes) == 0 {
+		return nil, "", false
+	}
+	// program order: no write inside a loop, all writes totally ordered by dominance
+	for _, w := range writes {
+		if kit.CanReach(w.in, w.in) {
+			return nil, "", false
+		}
+	}
+	for i := range writes {
+		for j := i + 1; j < len(writes); j++ {
+			if !kit.Precedes(writes[i].in, writes[j].in) && !kit.Precedes(writes[j].in, writes[i].in) {
+				return nil, "", false
+			}
+		}
+	}
+	sort.SliceStable(writes, func(i, j int) bool { return kit.Precedes(writes[i].in, writes[j].in) })
+	type cell struct {
+		prm *ssa.Parameter
+		idx int64
+	}
+	content := map[int64]cell{}
+	for _, w := range writes {
+		for b := w.lo; b < w.hi; b++ {
+			if w.prm != nil {
+				content[b] = cell{w.prm, w.slo + (b - w.lo)}
+			} else {
+				content[b] = cell{}
+			}
+		}
+	}
+	for b := argLo; b < argHi; b++ {
+		if c, okc := content[b]; okc {
+			mark(c.prm, c.idx)
+		}
+	}
+	return report(), fmt.Sprintf("a %d-byte buffer filled at evaluated offsets", argHi-argLo), true
+}
+
 func (cx *c03Ctx) checkDerive() {
 	r, p := cx.r, cx.p
 	fn := cx.derive
@@ -1891,6 +2382,14 @@ func (cx *c03Ctx) checkDerive() {
 	names := []string{"sharedSecret", "request identifier", "initiatorPub", "responderPub"}
 	r.Decide(sec[fn.Params[0]], "C03.R7", key+" secret is the HKDF input key", p.Pos(hk.Pos()),
 		"the shared secret is the HKDF input keying material", "the shared secret does not reach hkdf.New as input keying material: the key does not depend on the key exchange")
+	// the whole secret, not a prefix, is the input keying material (when the range can be evaluated)
+	if root, lo, hi, ok := c03BufRange(cx.saltValue(hk.Call.Args[1], scope, 0), 0); ok {
+		if cx.derivePrmOfBuffer(root, scope, 0) == fn.Params[0] {
+			r.Decide(lo == 0 && hi >= 32, "C03.R7", key+" secret handed over in full", p.Pos(hk.Pos()),
+				"all 32 bytes of the shared secret are the HKDF input keying material",
+				fmt.Sprintf("only bytes %d..%d of the shared secret are handed to hkdf.New: the key depends on a fraction of the key exchange", lo, hi))
+		}
+	}
 	for i := 1; i <= 3; i++ {
 		ok := salt[fn.Params[i]] || sec[fn.Params[i]] || info[fn.Params[i]]
 		r.Decide(ok, "C03.R7", fmt.Sprintf("%s %s bound", key, names[i]), p.Pos(hk.Pos()),
@@ -1976,6 +2475,13 @@ func (cx *c03Ctx) checkDerive() {
 		}
 	}
 	_ = idChecked
+	// exact byte accounting of the salt, when its construction can be evaluated
+	if lost, model, decided := cx.saltCoverage(hk, scope); decided {
+		r.Decide(len(lost) == 0, "C03.R7", key+" salt carries every input byte", p.Pos(hk.Pos()),
+			"every byte of the request identifier and of both public keys is present in the salt handed to hkdf.New ("+model+")",
+			"the salt handed to hkdf.New ("+model+") does not contain "+strings.Join(lost, ", ")+": tunnels that differ only in those bytes derive the same key")
+		return
+	}
 	nLayout := 0
 	for root, ws := range byRoot {
 		if undecidable[root] {
